@@ -46,8 +46,11 @@ def shared_children(world):
     return out
 
 
-def trigger_events(world, kinds, eps=None):
-    """All local triggers currently meaningful, for the endpoints in eps (default all live)."""
+def trigger_events(world, kinds, eps=None, timers_any_state=False):
+    """All local triggers currently meaningful, for the endpoints in eps (default all live).  timers_any_state: the
+    liveness / rekey / lifetime timers of an IKE_SA may come due in whatever state it is in (a replaced IKE_SA that still
+    waits to be deleted, one that has a request outstanding); normally only the states in which the code acts on them are
+    enumerated."""
     evs = []
     names = sorted(eps or world.endpoints)
     shared = shared_children(world) if ('soft' in kinds or 'hard' in kinds) else []
@@ -66,7 +69,7 @@ def trigger_events(world, kinds, eps=None):
             if 'hard' in kinds:
                 evs.append(('expire', name, bytes(c.inbound_spi), True))
         for i, sa in enumerate(ep.controller.ike_sas):
-            if int(sa.state) in ESTABLISHED_RANGE:
+            if int(sa.state) in ESTABLISHED_RANGE or (timers_any_state and sa.state != State.DELETED):
                 for kind in ('rekey_ike', 'delete_ike', 'dpd'):
                     if kind in kinds:
                         if kind == 'dpd' and sa.start_dpd_at < world.clock:
@@ -91,7 +94,8 @@ def next_retransmit_deadline(world):
     return best
 
 
-def make_enabled(kinds, per_endpoint=False, faults=('dup', 'drop'), timeouts=False, max_copies=2, max_net=6):
+def make_enabled(kinds, per_endpoint=False, faults=('dup', 'drop'), timeouts=False, max_copies=2, max_net=6,
+                 timers_any_state=False):
     """Returns enabled(world) using world.budget = {trig / trigA,trigB, fault, tick}."""
     def enabled(world):
         b = world.budget
@@ -108,9 +112,9 @@ def make_enabled(kinds, per_endpoint=False, faults=('dup', 'drop'), timeouts=Fal
         if per_endpoint:
             names = [n for n in sorted(world.endpoints) if b.get('trig' + n, 0) > 0]
             if names:
-                evs += trigger_events(world, kinds, names)
+                evs += trigger_events(world, kinds, names, timers_any_state)
         elif b.get('trig', 0) > 0:
-            evs += trigger_events(world, kinds)
+            evs += trigger_events(world, kinds, None, timers_any_state)
         if timeouts and b.get('tick', 0) > 0 and next_retransmit_deadline(world) is not None:
             evs.append(('timeout',))
         return evs
